@@ -402,7 +402,30 @@ func runC02LoadSeq(ctx *core.Ctx) {
 		k := 1 + ctx.Rng.Intn(3)
 		for j := 0; j <= k; j++ {
 			in := c02GenInput(ctx.Rng, 1)
-			steps = append(steps, c02SeqStep{Req: in.req(in.files(nil)), Label: "generated model (" + strings.Join(in.Shapes, ",") + ")"})
+			req := in.req(in.files(nil))
+			label := "generated model (" + strings.Join(in.Shapes, ",") + ")"
+			if j < k && ctx.Rng.Intn(3) == 0 {
+				// an earlier load made with other options: nothing an option switched on or off may stick to the process
+				switch ctx.Rng.Intn(7) {
+				case 0:
+					req.SkipValidation = true
+				case 1:
+					req.SkipInterpolation = true
+				case 2:
+					req.SkipNormalization = true
+				case 3:
+					req.NoResolvePaths = true
+				case 4:
+					req.SkipConsistencyCheck = true
+				case 5:
+					req.SkipExtends = true
+				default:
+					req.SkipDefaultValues, req.SkipResolveEnvironment = true, true
+				}
+				label += " with other options"
+				ctx.Count("seq-generated-history-other-options")
+			}
+			steps = append(steps, c02SeqStep{Req: req, Label: label})
 		}
 		same := ctx.Rng.Intn(2) == 0
 		ctx.Count(fmt.Sprintf("seq-generated-history-%d", k))
